@@ -36,9 +36,9 @@ func init() {
 				Procs:    16,
 				Rule: "mbits: every length 0..16 x every alignment 0..7 x every zero/non-zero pattern (exhaustive), lengths 17..40 (64 thorough) x alignments x structured and random patterns; lengths 16..136 with pairs/triples of 64-bit words that cancel under +, xor and or/and-not (for implementations that combine words before testing), at both possible word phases; a few buffers of 4095..65536 bytes; each in two layouts: a window inside a guard-filled buffer, and a slice that ends exactly at the end of its allocation; LeadingZeroes/TrailingZeroes vs byte loops, Zero clears exactly the slice and returns its length, guard bytes intact; run plain, under -race (checkptr) and, in thorough, under -asan. " +
 					"mstr.Trunc: every string of <= 5 runes over 1-, 2-, 3- and 4-byte runes x every n in 0..len+2 (prefix, len <= n, identity when n >= len, valid UTF-8, len >= n-4 when cut), random invalid byte strings for the unconditional clauses. " +
-					"mstr.CompareNatural: all 259 strings of length <= 3 over {0,1,9,/,:,a}: result in {-1,0,1}, antisymmetry on all pairs, transitivity on all 17.4 M triples (counted: those whose premises a<=b<=c hold), zero iff equal after stripping leading zeros of digit runs; numeric order of embedded digit runs of up to 18 digits. " +
+					"mstr.CompareNatural: all 259 strings of length <= 3 over {0,1,9,/,:,a}: result in {-1,0,1}, antisymmetry on all pairs, transitivity on all 17.4 M triples (counted: those whose premises a<=b<=c hold), zero iff equal after stripping leading zeros of digit runs; numeric order of embedded digit runs of up to 18 digits, including pairs of runs that differ only in their low-order digits at every magnitude (around powers of ten and of two) with following text that would decide the other way. " +
 					"distinct = enumerated inputs; non-trivial = mbits length >= 8 (word loop engaged) / Trunc cuts inside a multi-byte rune / CompareNatural pair with a digit run on both sides",
-				Required:     []string{"mbits_cases", "mbits_unaligned_word_cases", "mbits_exact_end_cases", "mbits_cancelling_word_cases", "trunc_cases", "trunc_cuts_inside_rune", "natural_pairs", "natural_triples", "natural_numeric_pairs", "natural_prefix_pairs"},
+				Required:     []string{"mbits_cases", "mbits_unaligned_word_cases", "mbits_exact_end_cases", "mbits_cancelling_word_cases", "trunc_cases", "trunc_cuts_inside_rune", "natural_pairs", "natural_triples", "natural_numeric_pairs", "natural_prefix_pairs", "natural_close_value_pairs"},
 				Exhaustive:   true,
 				Assumptions:  []string{"an over-read that stays inside one allocation and does not change the result is invisible to this monitor", "digit runs are kept to <= 18 digits so that int does not overflow"},
 				CoverPkgs:    []string{"github.com/creachadair/mds/mbits", "github.com/creachadair/mds/mstr"},
@@ -377,10 +377,44 @@ func c20numeric(c *fw.Ctx, r *rand.Rand) {
 			d2 = d1
 		}
 	}
-	a, b := pre+d1+suf, pre+d2+suf
+	suf2 := suf
+	if r.IntN(3) == 0 {
+		// close values: the runs differ only in their low-order digits (every
+		// magnitude up to 18 digits, powers of ten and of two nearby), and the
+		// texts after them would decide the other way if the runs tied
+		base := new(big.Int)
+		switch r.IntN(4) {
+		case 0:
+			base.Exp(big.NewInt(10), big.NewInt(int64(1+r.IntN(17))), nil)
+		case 1:
+			base.Lsh(big.NewInt(1), uint(20+r.IntN(39)))
+		default:
+			base.SetString(strings.TrimLeft(d1, "0")+"0", 10)
+		}
+		delta := big.NewInt(int64(r.IntN(401) - 200))
+		other := new(big.Int).Add(base, delta)
+		step := big.NewInt(int64(1 + r.IntN(3)*r.IntN(60)))
+		third := new(big.Int).Add(other, step)
+		if other.Sign() > 0 && len(third.String()) <= 18 {
+			d1 = strings.Repeat("0", r.IntN(3)) + other.String()
+			d2 = third.String()
+			suf, suf2 = "z", "a"
+			if r.IntN(2) == 0 {
+				d1, d2, suf, suf2 = d2, d1, suf2, suf
+			}
+			if len(d1) > 18 {
+				d1 = strings.TrimLeft(d1, "0")
+			}
+			c.Add("natural_close_value_pairs", 1)
+		}
+	}
+	a, b := pre+d1+suf, pre+d2+suf2
 	x, _ := new(big.Int).SetString(d1, 10)
 	y, _ := new(big.Int).SetString(d2, 10)
 	want := x.Cmp(y)
+	if want == 0 {
+		want = refNatural(a, b)
+	}
 	got := mstr.CompareNatural(a, b)
 	c.Add("natural_numeric_pairs", 1)
 	c.Step()
